@@ -58,8 +58,10 @@ def bounds(tier):
     if tier == "quick":
         return {"max_start_leaves": 4, "depth": 2, "length_patterns": ["none", "unit"], "rng_seeds": [0, 1, 2], "max_leaves": 5,
                 "large_starts_depth_1": [ref.to_newick(ref.mk(x, labels=BIGLABELS), False) for x in BIG_STARTS]}
-    return {"max_start_leaves": 4, "depth": 3, "length_patterns": ["none", "unit", "mixed"], "rng_seeds": [0, 1, 2], "max_leaves": 5,
-            "extra_starts": "binary U(5) + star, depth 2"}
+    return {"max_start_leaves": 4, "depth": 2, "length_patterns": ["none", "unit", "mixed"], "rng_seeds": [0, 1, 2], "max_leaves": 5,
+            "depth_3_from_starts_with_leaves_up_to": 3,
+            "extra_starts": "binary U(5) + star, depth 2",
+            "note": "depth 3 from all n<=4 starts (~45M transitions) did not finish in 96 min on the shared box; it is run from n<=3 starts"}
 
 
 # ---------------------------------------------------------------------------
@@ -512,6 +514,8 @@ def explore(tier, runner):
                 big.append((Live(s).key(), (s, ())))
     hist.bfs(runner, "expand", big, 1, chunk_size=1, extra={"tier": tier})
     if tier == "thorough":
+        st3 = [x for x in st if x[1][0][0] <= b["depth_3_from_starts_with_leaves_up_to"]]
+        hist.bfs(runner, "expand", st3, 3, chunk_size=4, extra={"tier": tier})
         st2 = []
         shapes5 = U.shapes(5)
         for si, sh in enumerate(shapes5):
